@@ -30,6 +30,7 @@ def correspondence(ctx):
         rcls = S.rclass(name) or B._generic_range_for(S.vclass(name))
         rng = ctx.rng("c10", name)
         bench = B.Bench(name, rng, size=16)
+        B.probe_unrankable(ctx, "C10", bench)
         stream = "normalize:" + name
         if not bench.ok(11):
             ctx.stream(stream)["skipped"] = "pool too small"
